@@ -28,7 +28,18 @@ def layout(name, light):
             "replay": {"prog": "replay_jit_layout.cpp", "sources": "lib", "no_args": True}}
 
 
+EXEC_LOOP = {"name": "interpreter_main_loop_stays_inside_scratchpad_and_dataset",
+             "files": [{"cxx": XS.VM_EXECUTE, "out": "vmx.c", "header": True,
+                        "loops": [{"function": "InterpretedVm_execute", "expect_loops": 14, "loops": {"1": "RXV_EXEC_LOOP_INVARIANT"}}]}, "harness_exec_loop.c"],
+             "incdirs": INC, "defines": ['RXV_CONTRACTS_H="contracts_exec_loop.h"', "softAes=1"], "entry": "h_execute", "enforce": "InterpretedVm_execute",
+             "replace": ["aesenc", "aesdec", "rx_cvt_packed_int_vec_f128", "rx_store_vec_f128", "load64", "store64", "BytecodeMachine_compileProgram",
+                         "BytecodeMachine_executeBytecode", "InterpretedVm_datasetPrefetch", "InterpretedVm_datasetRead"],
+             "loop_contracts": True, # every loop of execute except the main loop (id 11: its back edge follows those of the 10 loops nested in it) is unrolled before dfcc
+             "pre_unwindset": ["InterpretedVm_execute.%d:9" % k for k in list(range(0, 11)) + [12, 13, 14]], "unwind": 24, "cbmc_flags": ["--object-bits", "12"],
+             "checks": ["--bounds-check", "--pointer-check", "--div-by-zero-check", "--undefined-shift-check", "--signed-overflow-check"],
+             "expect_classes": ["precondition", "loop_invariant_step", "postcondition"], "expect_min": 30, "timeout": 1800, "mem_gb": 30, "weight": 6}
 OBLIGATIONS = [
+    EXEC_LOOP,
     layout("jit_program_fits_below_superscalar_area", 0),
     layout("jit_light_program_fits_below_superscalar_area", 1),
     # scratchpad accesses of the interpreter: every load/store address lies in [0, 2 MiB - 8] (accessor preconditions)
